@@ -229,6 +229,14 @@ class Heap:
         h = h.set('hase', z3.Store(h.get('hase'), g, z3.K(INT, z3.K(INT, z3.BoolVal(False)))))
         return h, g
 
+    def wf_refs(self):
+        """Graph references stored in node attributes point at allocated graphs (no dangling / future ids)."""
+        g = z3.Int(fresh_name('rg'))
+        n = z3.Int(fresh_name('rn'))
+        val = self.get('nv:graph')[g][n]
+        return [z3.ForAll([g, n], z3.Implies(z3.And(g >= 0, g < self.get('next_gid'), self.get('nh:graph')[g][n]),
+                                             z3.And(val >= 0, val < self.get('next_gid'))), patterns=[val])]
+
     # ---- well-formedness of one graph (assumed, see module docstring) --------------------
     def wf_graph(self, g):
         i = z3.Int(fresh_name('wi'))
